@@ -34,6 +34,9 @@ def run(ctx: Ctx) -> None:
     anchor(ctx, info)
     first_run(ctx)
     race(ctx, "R-C06-ONE")  # a run that completed must not also be returned to the queue: that would leave two successors
+    from .delay import whole_duration_rule
+
+    whole_duration_rule(ctx, "R-C06-FIRST")  # a due time carried as timedelta.seconds loses whole days: the first run would come days early
 
 
 def message_reschedule(ctx: Ctx) -> None:
